@@ -9,6 +9,7 @@ import (
 // PacketStore is a goroutine safe packet store.
 type PacketStore struct {
 	packets map[packet.ID]packet.Generic
+	order   []packet.ID
 	mutex   sync.RWMutex
 }
 
@@ -42,6 +43,11 @@ func (s *PacketStore) Save(pkt packet.Generic) {
 
 	id, ok := packet.GetID(pkt)
 	if ok {
+		// remember the order in which ids have been saved first
+		if _, exists := s.packets[id]; !exists {
+			s.order = append(s.order, id)
+		}
+
 		s.packets[id] = pkt
 	}
 }
@@ -61,7 +67,20 @@ func (s *PacketStore) Delete(id packet.ID) {
 	defer s.mutex.Unlock()
 
 	// delete packet
+	// check existence
+	if _, exists := s.packets[id]; !exists {
+		return
+	}
+
 	delete(s.packets, id)
+
+	// remove id from the order list
+	for i, v := range s.order {
+		if v == id {
+			s.order = append(s.order[:i], s.order[i+1:]...)
+			break
+		}
+	}
 }
 
 // All will return all packets currently saved in the store.
@@ -69,10 +88,10 @@ func (s *PacketStore) All() []packet.Generic {
 	s.mutex.RLock()
 	defer s.mutex.RUnlock()
 
-	// collect packets
+	// collect packets in the order they have been saved first
 	var all []packet.Generic
-	for _, pkt := range s.packets {
-		all = append(all, pkt)
+	for _, id := range s.order {
+		all = append(all, s.packets[id])
 	}
 
 	return all
@@ -85,4 +104,5 @@ func (s *PacketStore) Reset() {
 
 	// reset packets
 	s.packets = make(map[packet.ID]packet.Generic)
+	s.order = nil
 }
